@@ -252,6 +252,31 @@ def rule_own_idx(ctx: RuleContext, p: Program, rid: str) -> None:
     vw = p.cls('RepeatedValueWrapper', 'models.internal.value_properties')
     hd = p.cls('_RepeatedValueWrapperUpdateHandler', 'models.internal.value_properties')
     binds = 0
+    # the names under which the one list is held: the wrapper's attribute, and the handler's (an assignment in a hand-written __init__, or
+    # the field of a dataclass -- whose synthesised __init__ is the constructor binding)
+    names = {'_raw_indexes'}
+    init0 = p.method(vw, '__init__', inherited=False)
+    hd_is_dc = any('dataclass' in norm(d) for d in hd.node.decorator_list)
+    hd_fields = [st.target.id for st in hd.node.body if isinstance(st, ast.AnnAssign) and isinstance(st.target, ast.Name)]
+    hd_init = hd.attrs.get('__init__')
+    for c in walk_no_nested(init0.node):
+        if isinstance(c, ast.Call) and norm(c.func).endswith('_RepeatedValueWrapperUpdateHandler'):
+            for pos, a in enumerate(c.args):
+                if norm(a) == 'self._raw_indexes':
+                    if hd_is_dc and not isinstance(hd_init, FuncInfo) and pos < len(hd_fields):
+                        names.add(hd_fields[pos])
+                        binds += 1
+                    elif isinstance(hd_init, FuncInfo) and pos + 1 < len(hd_init.params):
+                        par = hd_init.params[pos + 1]
+                        for st in walk_no_nested(hd_init.node):
+                            if isinstance(st, ast.Assign) and isinstance(st.value, ast.Name) and st.value.id == par \
+                                    and isinstance(st.targets[0], ast.Attribute):
+                                names.add(st.targets[0].attr)
+            for k in c.keywords:
+                if norm(k.value) == 'self._raw_indexes' and k.arg:
+                    if hd_is_dc and not isinstance(hd_init, FuncInfo) and k.arg in hd_fields:
+                        names.add(k.arg)
+                        binds += 1
     for m in p.modules.values():
         for fn in p.functions_in(m):
             for n in walk_no_nested(fn.node):
@@ -263,7 +288,7 @@ def rule_own_idx(ctx: RuleContext, p: Program, rid: str) -> None:
                 elif isinstance(n, ast.Delete):
                     tgts = list(n.targets)
                 elif isinstance(n, ast.Call) and isinstance(n.func, ast.Attribute) and n.func.attr in R.LIST_MUTATORS \
-                        and isinstance(n.func.value, ast.Attribute) and n.func.value.attr == '_raw_indexes':
+                        and isinstance(n.func.value, ast.Attribute) and n.func.value.attr in names:
                     tgts = [ast.Subscript(value=n.func.value, slice=ast.Constant(0), ctx=ast.Store())]
                 for t in tgts:
                     base = t
@@ -271,7 +296,7 @@ def rule_own_idx(ctx: RuleContext, p: Program, rid: str) -> None:
                     while isinstance(base, ast.Subscript):
                         base = base.value
                         inplace = True
-                    if not (isinstance(base, ast.Attribute) and base.attr == '_raw_indexes'):
+                    if not (isinstance(base, ast.Attribute) and base.attr in names):
                         continue
                     site = f'{m.name.split(".", 1)[1]}:{fn.qualname}'
                     if not inplace:
@@ -417,7 +442,10 @@ def run(ctx: RuleContext, p: Program) -> None:
     ctx.try_rule(rule_sign_idx, p, fns, 'SIGN-IDX')
     ctx.try_rule(rule_notify_order, p, fns, 'NOTIFY-ORDER')
     ctx.try_rule(rule_own_idx, p, 'OWN-IDX')
-    ctx.try_rule(rule_handler_form, p, 'HANDLER-FORM')
+    # HANDLER-FORM (handle_splice on mock handler objects addressed by attribute name, handle() by shape) is replaced by VIEW-LIVE, which
+    # interprets the whole registration / notification chain and reads the views through their own methods
+    from . import viewlive
+    ctx.try_rule(viewlive.rule_view_live, p, 'VIEW-LIVE', 2 if ctx.tier == 'quick' else 3)
     ctx.try_rule(rule_view_read, p, 'VIEW-READ')
     ctx.try_rule(rule_view_write, p, 'VIEW-WRITE')
     ctx.try_rule(rule_view_sem, p, 'VIEW-SEM', 3 if ctx.tier == 'quick' else 5)
@@ -735,7 +763,8 @@ def rule_map_first(ctx: RuleContext, p: Program, rid: str) -> None:
     ctx.rule(rid, 'the key-addressed methods of the meta mapping views (__getitem__, __setitem__, __delitem__, pop, __contains__ with a '
                   'str key), interpreted from their ASTs over every key layout of up to 3 items (duplicates included): each addresses the '
                   'FIRST item carrying the key -- the one reads return -- appends when the key is absent (set), and raises KeyError / '
-                  'returns the default otherwise -- pop(key, d) returns d for an absent key whatever d is (None, 0, \'\', False included), as dict.pop does; all five agree on which item a key means')
+                  'returns the default otherwise -- pop(key, d) returns d for an absent key whatever d is (None, 0, \'\', False included), as dict.pop does; all five agree on which item a key means; keys() / values() / items(), forward and reversed, yield the items position by position (an item '
+                  'sharing its key with an earlier one shows its own value)')
     m = p.module('models.meta_item_internal')
     ts = TS(p)
     wrappers = [p.cls('RepeatedRawMetaItemWrapper', 'models.meta_item_internal'), p.cls('RepeatedMetaItemWrapper', 'models.meta_item_internal')]
@@ -951,6 +980,54 @@ def rule_map_first(ctx: RuleContext, p: Program, rid: str) -> None:
                       f'{w.name}.{method}(key): {problem}: the methods of one mapping view disagree on which of several items with the same key '
                       f'a key means (first-match is what reads use), so writing through a key changes a different meta line than the one read back',
                       fnm.where, note=f'{cnt} layouts x keys')
+    # keys() / values() / items(): the views iterate the items position by position -- an item that shares its key with an earlier one still
+    # shows its OWN value (a dict built from the ledger lines, not a lookup by key per line)
+    n_views = 0
+    for w in wrappers:
+        value_view = w is wrappers[1]
+        for method in ('keys', 'values', 'items'):
+            fn = w.lookup(method)
+            if not isinstance(fn, FuncInfo) or fn.cls not in wrappers:
+                continue
+            made = [c for c in walk_no_nested(fn.node) if isinstance(c, ast.Call) and isinstance(c.func, ast.Name) and c.func.id in local_classes]
+            if len(made) != 1:
+                raise AnalysisError(f'MAP-FIRST: {w.name}.{method} does not construct one view class of its module')
+            vc = p.cls(made[0].func.id, 'models.meta_item_internal')
+            for direction in ('__iter__', '__reversed__'):
+                vf_ = vc.lookup(direction)
+                if not isinstance(vf_, FuncInfo):
+                    continue
+                problem = None
+                cnt = 0
+                for keys in layouts:
+                    items = [possem.Obj('MetaItem', {'key': k, 'value': possem.Obj('Value', {'model': False, 'token_store': None}, f'v{i}')}, f'item{i}')
+                             for i, k in enumerate(keys)]
+                    wrapper = possem.Obj(w.name, {}, 'wrapper')
+                    it = Interp(items, wrapper)
+                    it.wrapper_cls = w
+                    view = possem.Obj(vc.name, {'_wrapper': wrapper, '_mapping': wrapper}, 'view')
+                    cnt += 1
+                    try:
+                        got = list(possem.PosInterp.iter_of(it, it.call_function(vf_, [view], {}), vf_.node))
+                    except possem.Raised as ex:
+                        problem = problem or f'keys {list(keys)}: raises {ex}'
+                        continue
+                    seq = list(items) if direction == '__iter__' else list(reversed(items))
+                    proj = (lambda x: x.f['value']) if value_view else (lambda x: x)
+                    want = [x.f['key'] for x in seq] if method == 'keys' else [proj(x) for x in seq] if method == 'values' \
+                        else [(x.f['key'], proj(x)) for x in seq]
+                    same = len(got) == len(want) and all(
+                        (g is w_) or (isinstance(g, str) and g == w_) or (isinstance(g, tuple) and isinstance(w_, tuple) and len(g) == 2 and g[0] == w_[0] and g[1] is w_[1])
+                        for g, w_ in zip(got, want))
+                    if not same and problem is None:
+                        problem = (f'keys {list(keys)}: {method}() {"reversed " if direction == "__reversed__" else ""}yields {got!r}, the items line by '
+                                   f'line are {want!r}: an item that shares its key with an earlier one shows the earlier item\'s value')
+                n_views += 1
+                n += cnt
+                ctx.check(problem is None, rid, f'models.meta_item_internal:{vc.name}.{direction}', 'position-wise',
+                          f'{w.name}.{method}(): {problem}', vf_.where, note=f'{cnt} key layouts')
+    if n_views < 12:
+        raise AnalysisError(f'MAP-FIRST: only {n_views} of the 12 view iterations (keys/values/items x forward/reversed x two wrappers) found')
     if n < 200:
         raise AnalysisError(f'MAP-FIRST: only {n} cases evaluated')
 
